@@ -521,3 +521,275 @@ def run_restart_scenario(seed, n_events=12, kill=True):
     finally:
         if cl is not None:
             cl.close()
+
+
+# ---- command scenarios (C19) ---------------------------------------------------------------------
+def render_command(p):
+    """p: dict(values=[...], appends=[dict(topic, meta, content)], fail, suffix, ttl, slow_ms, count)"""
+    lines = ["{"]
+    if p.get("suffix") or p.get("ttl"):
+        ro = []
+        if p.get("suffix"):
+            ro.append(f"suffix: {nu_str(p['suffix'])}")
+        if p.get("ttl"):
+            ro.append(f"ttl: {nu_str(p['ttl'])}")
+        lines.append("  return_options: {" + ", ".join(ro) + "}")
+    body = ["    $env.count = (($env.count? | default 0) + 1)"]
+    if p.get("slow_ms"):
+        body.append(f"    sleep {p['slow_ms']}ms")
+    for a in p.get("appends", []):
+        cmd = f"    {nu_str(a['content'])} | .append {nu_str(a['topic'])}"
+        if a.get("meta") is not None:
+            cmd += " --meta {" + ", ".join(f"{k}: {nu_str(v) if isinstance(v, str) else v}" for k, v in a["meta"].items()) + "}"
+        body.append(cmd)
+    if p.get("fail"):
+        body.append('    error make {msg: "boom"}')
+    vals = p.get("values", [])
+    if p.get("count"):
+        body.append("    [$env.count]")
+    elif p.get("single") and vals:
+        body.append("    " + nu_str(vals[0]))
+    else:
+        body.append("    [" + ", ".join(nu_str(v) for v in vals) + "]")
+    lines.append("  run: {|frame|\n" + "\n".join(body) + "\n  }")
+    lines.append("}")
+    return "\n".join(lines)
+
+
+def model_service(lines):
+    m = subprocess.run([build.XSMODEL, "service"], input=("\n".join(lines) + "\n").encode(), stdout=subprocess.PIPE,
+                       stderr=subprocess.PIPE, timeout=60)
+    if m.returncode:
+        raise RuntimeError("xsmodel service: " + m.stderr.decode()[-300:])
+    blocks, cur = [], None
+    for l in m.stdout.decode().splitlines():
+        t = l.split(" ")
+        if t[0] in ("CALLFRAMES", "LIFECYCLES"):
+            cur = []; blocks.append(cur)
+        elif t[0] == "ACTION":
+            blocks.append(t[1:])
+        elif t[0] == "E" and cur is not None:
+            cur.append(dict(topic=unxh(t[1]).decode(), ctx=int(t[2], 16), hid=int(t[3], 16), fid=int(t[4], 16), ttl=t[5],
+                            content=unxh(t[6]) if t[6] != "-" else None,
+                            meta=json.loads(unxh(t[7])) if t[7] != "-" else None, err=t[8] == "1"))
+    return blocks
+
+
+def run_command_scenario(seed, n_events=12):
+    r = random.Random(seed)
+    cl = Client("api,commands")
+    rep = dict(seed=seed, violations=[], calls=0, frames=0, events=[], scripts=[])
+    try:
+        ctxs = [0]
+        for _ in range(r.choice([0, 1, 1])):
+            c = cl.append("xs.context")
+            if c:
+                ctxs.append(c)
+        defs = {}      # def id -> prog
+        evs = []       # (id, kind, name, ctx, valid)
+        names = ["c", "c", "d"]
+        # a call before any definition: never executed
+        i0 = cl.append("c.call", ctx=r.choice(ctxs))
+        evs.append((i0, "call", "c", 0, None))
+        for _ in range(n_events):
+            k = r.choices(["define", "baddefine", "call", "burstcalls", "other"], [3, 1, 6, 1, 1])[0]
+            c = r.choice(ctxs)
+            n = r.choice(names)
+            if k == "define":
+                p = dict(values=[r.choice(["a", "b", "héllo", "x" * 200]) for _ in range(r.choice([0, 1, 2, 3]))],
+                         appends=[dict(topic=r.choice(["side", n + ".note"]), meta=r.choice([None, {"k": 1}]), content="c1")
+                                  for _ in range(r.choice([0, 0, 1, 2]))],
+                         fail=r.random() < 0.15, suffix=r.choice([None, None, ".x"]), ttl=r.choice([None, "time:600000", "forever"]),
+                         slow_ms=r.choice([0, 0, 150]), count=r.random() < 0.3, single=r.random() < 0.2)
+                script = render_command(p)
+                i = cl.append(n + ".define", ctx=c, body=script.encode())
+                defs[i] = p
+                evs.append((i, "define", n, c, True))
+                if len(rep["scripts"]) < 2:
+                    rep["scripts"].append(script[:300])
+                cl.settle(0.15, 3)
+            elif k == "baddefine":
+                i = cl.append(n + ".define", ctx=c, body=b"{ run: {|frame| ")
+                evs.append((i, "define", n, c, False))
+                cl.settle(0.15, 3)
+            elif k == "call":
+                i = cl.append(n + ".call", ctx=c, meta={"args": {"n": 1}})
+                evs.append((i, "call", n, c, None)); rep["calls"] += 1
+                if r.random() < 0.6:
+                    cl.settle(0.2, 5)
+            elif k == "burstcalls":
+                for _ in range(3):
+                    cc = r.choice(ctxs)
+                    i = cl.append(n + ".call", ctx=cc)
+                    evs.append((i, "call", n, cc, None)); rep["calls"] += 1
+            else:
+                cl.append("other", ctx=c)
+            rep["events"].append(k)
+        cl.settle(0.6, 30)
+        fr = cl.frames()
+        # which definition runs which call: the model's serve loop over the events in id order
+        lines = []
+        for (i, kind, n, c, valid) in sorted(e for e in evs if e[0]):
+            if kind == "define":
+                lines.append(f"EV define {H.hex32(i)} {H.hex32(c)} {xh(n)} {1 if valid else 0}")
+            else:
+                lines.append(f"EV call {H.hex32(i)} {H.hex32(c)} {xh(n)}")
+        actions = model_service(lines)
+        by_call = {}
+        for f in fr:
+            m = f["meta"]
+            if m and m.get("frame_id") and m.get("command_id"):
+                try:
+                    by_call.setdefault(H.s_to_id(m["frame_id"]), []).append(f)
+                except Exception:
+                    pass
+        # invalid definitions: exactly one <name>.error naming the definition
+        for (i, kind, n, c, valid) in evs:
+            if kind == "define" and valid is False and i:
+                errs = [f for f in fr if f["topic"] == n + ".error" and f["meta"] and f["meta"].get("command_id") == H.id_to_s(i)
+                        and not f["meta"].get("frame_id")]
+                if len(errs) != 1:
+                    rep["violations"].append(dict(what=f"invalid definition of `{n}`: expected exactly one {n}.error naming it, got {len(errs)}"))
+        evs_sorted = sorted(e for e in evs if e[0])
+        for ev, act in zip(evs_sorted, actions):
+            (i, kind, n, c, valid) = ev
+            if kind != "call":
+                continue
+            got = by_call.get(i, [])
+            rep["frames"] += len(got)
+            if act[0] == "none":
+                if got:
+                    rep["violations"].append(dict(what=f"call of undefined command `{n}` produced frames {[g['topic'] for g in got]}"))
+                continue
+            d = int(act[1], 16)
+            p = defs[d]
+            vals = [json.dumps(1)] if p.get("count") else [json.dumps(v, ensure_ascii=False) for v in (p["values"][:1] if p.get("single") and p["values"] else p["values"])]
+            line = (f"CALL def={H.hex32(d)} name={xh(n)} suffix={xh(p.get('suffix') or '.recv')} ttl={ttl_tok(p.get('ttl'))} "
+                    f"call={H.hex32(i)} ctx={H.hex32(c)} res={'err' if p.get('fail') else 'ok'}")
+            for a in p.get("appends", []):
+                meta = json.dumps(a["meta"], separators=(",", ":")) if a.get("meta") is not None else None
+                line += f" A {xh(a['topic'])} {xh(meta) if meta else '-'} - {xh(a['content'])}"
+            if not p.get("fail"):
+                for v in vals:
+                    line += f" V {xh(v)}"
+            exp = model_service([line])[0]
+            obs = []
+            for f in got:
+                m = f["meta"]
+                user = {k2: v for k2, v in m.items() if k2 not in ("command_id", "frame_id", "error")}
+                obs.append(dict(topic=f["topic"], ctx=f["ctx"], hid=H.s_to_id(m["command_id"]), fid=i, ttl=f["ttl"],
+                                content=cl.cas(f["hash"]) if f["hash"] else None, meta=user or None, err="error" in m))
+            for e in exp:
+                e["meta"] = strip_cmd(e["meta"])
+            if obs != exp:
+                kx = next((j for j, (a, b) in enumerate(zip(exp, obs)) if a != b), min(len(exp), len(obs)))
+                rep["violations"].append(dict(
+                    what=f"call of `{n}` (definition {hex(d)[-6:]}, caller context {'zero' if c == 0 else 'non-zero'}) produced {len(obs)} frames "
+                         f"{[o['topic'] for o in obs]}, the model says {len(exp)} {[e['topic'] for e in exp]}; first difference at #{kx}: "
+                         f"impl {str(obs[kx])[:250] if kx < len(obs) else 'nothing'} vs model {str(exp[kx])[:250] if kx < len(exp) else 'nothing'}",
+                    script=render_command(p)))
+        return rep
+    finally:
+        cl.close()
+
+
+def strip_cmd(m):
+    if not m:
+        return None
+    u = {k: v for k, v in m.items() if k not in ("command_id", "frame_id")}
+    return u or None
+
+
+# ---- generator scenarios (C18) -------------------------------------------------------------------
+GEN_EXPRS = [
+    ('"solo"', ["solo"]),
+    ('["a", "b", "c"] | each {|x| $x}', ["a", "b", "c"]),
+    ('1..4 | each {|x| $"v($x)"}', ["v1", "v2", "v3", "v4"]),
+    ('[] | each {|x| $x}', []),
+    ('["héllo", ""] | each {|x| $x}', ["héllo", ""]),
+]
+
+
+def run_generator_scenario(seed, wait_s=2.6):
+    r = random.Random(seed)
+    cl = Client("api,generators")
+    rep = dict(seed=seed, violations=[], spawns=0, frames=0, lifecycles=0, exprs=[])
+    try:
+        ctxs = [0]
+        c1 = cl.append("xs.context")
+        if c1:
+            ctxs.append(c1)
+        gens = []   # dict(id, ctx, name, outs, kind)
+        names = ["g1", "g2", "g3", "g4"]
+        r.shuffle(names)
+        for n in names[: r.choice([2, 3, 4])]:
+            c = r.choice(ctxs)
+            kind = r.choices(["plain", "duplex", "nocontent", "dupname"], [5, 2, 1, 1])[0]
+            if kind == "plain":
+                expr, outs = r.choice(GEN_EXPRS)
+                i = cl.append(n + ".spawn", ctx=c, body=expr.encode())
+                gens.append(dict(id=i, ctx=c, name=n, outs=outs, kind="plain")); rep["exprs"].append(expr)
+            elif kind == "duplex":
+                i = cl.append(n + ".spawn", ctx=c, body=GEN_DUPLEX.encode(), meta={"duplex": True})
+                gens.append(dict(id=i, ctx=c, name=n, outs=None, kind="duplex", sends=[]))
+            elif kind == "nocontent":
+                i = cl.append(n + ".spawn", ctx=c)
+                gens.append(dict(id=i, ctx=c, name=n, outs=None, kind="refused"))
+            else:
+                expr, outs = GEN_EXPRS[1]
+                i = cl.append(n + ".spawn", ctx=c, body=GEN_DUPLEX.encode(), meta={"duplex": True})
+                gens.append(dict(id=i, ctx=c, name=n, outs=None, kind="duplex", sends=[]))
+                cl.settle(0.2, 3)
+                j = cl.append(n + ".spawn", ctx=c, body=expr.encode())     # same name, same context: refused
+                gens.append(dict(id=j, ctx=c, name=n, outs=None, kind="refused"))
+            rep["spawns"] += 1
+            cl.settle(0.15, 3)
+        # duplex traffic interleaved with other frames
+        for g in [g for g in gens if g["kind"] == "duplex"]:
+            cl.wait_topic(g["name"] + ".start", ctx=g["ctx"], after=g["id"], timeout=5)
+            for k in range(r.choice([1, 2, 4])):
+                msg = f"m{k}-{g['name']}"
+                cl.append(g["name"] + ".send", ctx=g["ctx"], body=msg.encode())
+                g["sends"].append(msg)
+                if r.random() < 0.5:
+                    cl.append("other", ctx=r.choice(ctxs))
+        time.sleep(wait_s)
+        cl.settle(0.3, 5)
+        fr = cl.frames()
+        for g in gens:
+            sid = H.id_to_s(g["id"]) if g["id"] else None
+            mine = [f for f in fr if f["meta"] and f["meta"].get("source_id") == sid]
+            rep["frames"] += len(mine)
+            obs = [dict(topic=f["topic"], ctx=f["ctx"], content=cl.cas(f["hash"]) if f["hash"] else None) for f in mine]
+            if g["kind"] == "refused":
+                errs = [o for o in obs if o["topic"] == g["name"] + ".spawn.error"]
+                if len(errs) != 1 or len(obs) != 1:
+                    rep["violations"].append(dict(what=f"a spawn of `{g['name']}` that cannot be honoured must yield exactly one "
+                                                       f"{g['name']}.spawn.error naming it; got {[o['topic'] for o in obs]}"))
+                continue
+            if g["kind"] == "plain":
+                runs = [g["outs"]] * 6
+                line = f"GEN spawn={H.hex32(g['id'])} ctx={H.hex32(g['ctx'])} name={xh(g['name'])}" + "".join(
+                    " RUN" + "".join(f" o={xh(o)}" for o in run) for run in runs)
+                exp = [dict(topic=e["topic"], ctx=e["ctx"], content=e["content"]) for e in model_service([line])[0]]
+                per = len(g["outs"]) + 2
+                n_complete = len(obs) // per
+                rep["lifecycles"] += n_complete
+                if obs != exp[: len(obs)]:
+                    kx = next((j for j, (a, b) in enumerate(zip(exp, obs)) if a != b), min(len(exp), len(obs)))
+                    rep["violations"].append(dict(
+                        what=f"generator `{g['name']}` ({g['outs']}): observed frames deviate from start, recv..., stop, start, ... at #{kx}: "
+                             f"impl {str(obs[kx])[:200] if kx < len(obs) else 'nothing'} vs model {str(exp[kx])[:200]}; observed topics {[o['topic'] for o in obs][:14]}"))
+                elif n_complete < 2:
+                    rep["violations"].append(dict(
+                        what=f"generator `{g['name']}` ({g['outs']}) was not started again after its stop within {wait_s}s: only "
+                             f"{[o['topic'] for o in obs]}"))
+            else:
+                want = [dict(topic=g["name"] + ".start", ctx=g["ctx"], content=None)] + \
+                       [dict(topic=g["name"] + ".recv", ctx=g["ctx"], content=("hi: " + m).encode()) for m in g["sends"]]
+                if obs != want:
+                    rep["violations"].append(dict(
+                        what=f"duplex generator `{g['name']}`: sent {g['sends']}, observed {[(o['topic'], o['content']) for o in obs]}"))
+        return rep
+    finally:
+        cl.close()
